@@ -17,8 +17,8 @@ import ODataVerif.Spec.ODataSem
 namespace OQ.Spec
 
 inductive RelKind
-  | toOne (fk : Str)                          -- src.fk = dst.id
-  | toMany (childFk : Str)                    -- dst.childFk = src.id
+  | toOne (fk : Str) (key : Str)              -- src.fk = dst.key   (key = "id", or a unique natural key the foreign key references)
+  | toMany (childFk : Str) (key : Str)        -- dst.childFk = src.key
   | m2m (link : Str) (srcCol dstCol : Str)    -- link.srcCol = src.id ∧ link.dstCol = dst.id
   deriving DecidableEq, Repr
 
@@ -45,12 +45,12 @@ def idOf (r : Row) : Option Int := r.int "id".toList
 /-- the rows of the target table related to `r` through `rel` -/
 def relatedRows (db : DB) (rel : RelDef) (r : Row) : List Row :=
   match rel.kind with
-  | .toOne fk =>
+  | .toOne fk key =>
       (match r.int fk with
-       | some k => (db.table rel.dst).filter (fun x => idOf x == some k)
+       | some k => (db.table rel.dst).filter (fun x => x.int key == some k)
        | none => [])
-  | .toMany cfk =>
-      (match idOf r with
+  | .toMany cfk key =>
+      (match r.int key with
        | some k => (db.table rel.dst).filter (fun x => x.int cfk == some k)
        | none => [])
   | .m2m link sc dc =>
@@ -70,7 +70,7 @@ def navTo (sch : Schema) (db : DB) : Str → Option Row → List Str → Option 
       match sch.rel tbl seg with
       | some rel =>
           (match rel.kind with
-           | .toOne _ =>
+           | .toOne _ _ =>
                let next := match r with
                  | some row => (relatedRows db rel row).head?
                  | none => none
@@ -157,7 +157,7 @@ def collRows (sch : Schema) (db : DB) (tbl : Str) (r : Row) (path : List Str) (c
       (match sch.rel t coll with
        | some rel =>
            (match rel.kind with
-            | .toOne _ => none
+            | .toOne _ _ => none
             | _ => some (rel.dst, match row with
                                   | some x => relatedRows db rel x
                                   | none => []))
